@@ -280,7 +280,7 @@ PROPS["C15"] = dict(
 PROPS["C13"] = dict(
     rule="models over versions Vanilla..MoP (cycled): names of varying length, global sequences, 1..5 bones whose translation/scale tracks draw time lines from a shared pool (shared time line with own values, fully shared tracks, own ranges pre-WotLK), vertices, materials, static transparency tracks, events with and without time lists, attachments with and without animated scale; write -> parse must give the same content (structures through the parser, key frames read from the file through the (count, offset) pairs), a second write the same bytes, conversion to the same version the same bytes and to another version (all 25 pairs over a run) the shared content; the relocated offsets of all bone key-frame blobs are compared with the Lean relocation model's. Skins: old and versioned layouts x every list empty/one/many, write -> parse -> write. non-trivial = a model or skin that passed all comparisons",
     trusted_base=COMMON_TB + [
-        "only the sections listed are generated (no lights, emitters, colour/texture animations, rotations): their serialisation uses the same relocation scheme but is not exercised; anim files are not generated",
+        "only the sections listed are generated (no lights, emitters, colour/texture animations, rotations): their serialisation uses the same relocation scheme but is not exercised; legacy-container .anim files cannot be read back (finding D65), modern ones are generated",
         "old-layout skins carry at least 6 indices except in the known-finding sample (D40)",
     ],
     assumptions=["rotation tracks (compressed quaternions) are left empty: their element size differs by version and the generator keeps to vec3 tracks"],
@@ -293,7 +293,7 @@ PROPS["C05"] = dict(
         "the harness is built with overflow checks on (as `cargo test` builds are), so arithmetic overflow counts as a panic",
         "allocation accounting is by a counting global allocator in the worker; the 256 MiB / 3 GiB thresholds are the harness' reading of 'out of proportion' for inputs of a few KiB to ~1 MiB",
     ],
-    assumptions=["anim files have no generator (AnimFile::parse runs on the M2 mutants only)"],
+    assumptions=["the mutation seeds are the valid files listed in the rule; a parser path no seed reaches is not exercised"],
 )
 
 # ---- additions made after the second round of seeded changes (what each generator / oracle now also covers)
@@ -319,13 +319,14 @@ EXTRA_RULE = {
  "C12": "the destination reserved beforehand as an EMPTY file (besides absent and holding earlier content).",
 }
 ROUND5 = {
- "C01": "the archive header of every built archive through Model.C01Header (fields against the builder's request), every header field replaced by boundary values (sizes around each version's minimum, versions 0..5, shifts around the limit, table positions around the archive size, table sizes around the entry limits and non-powers of two), truncations at every field boundary, V3 headers announcing the V4 size; one archive in four carries name pairs that differ only in the case of a non-ASCII letter.",
+ "C01": "the archive header of every built archive through Model.C01Header (fields against the builder's request), every header field replaced by boundary values (sizes around each version's minimum, versions 0..5, shifts around the limit, table positions around the archive size, table sizes around the entry limits and non-powers of two), truncations at every field boundary, V3 headers announcing the V4 size; one archive in four carries name pairs that differ only in the case of a non-ASCII letter; builds with two names that are one name to the archive (ASCII case / slash direction) must be refused (V1..V4).",
  "C02": "one reference-written archive in three is also read behind a 512- or 1024-byte foreign prefix (position-adjusted keys are relative to the archive's own start).",
  "C05": "fields that belong together made hostile at once: (offset, size) entries of the BLP mipmap locator, adjacent (count, offset) pairs of model / skin / animation headers.",
  "C07": "sources whose names differ only in the case of a non-ASCII letter (distinct files: the format folds ASCII only).",
  "C08": "the file map and the listing after every step against Model.C08Read (c08map, c08list); patch entries that do not parse (signature / digest-block signature altered, cut inside the header) and three-level chains (base, patch, patch over patch; lower patch intact, unparseable, altered) against readFile of the model; two archives whose names differ only in the case of a non-ASCII letter under three priority orders.",
  "C09": "two more generations at the same path: an archive without (listfile) and one whose external listfile names only every second member.",
  "C13": "the five (count, offset) pairs in the header of every written skin and the file size against Model.C13Skin's section layout.",
+ "C15": "the MOHD payload of every written root (seven counts, packed ambient colour, bounding box by bit pattern) against Lib.Record's encoding of the object's values.",
  "C16": "the header of every encoded file through Model.C16Header, every one of its first 28 bytes replaced by boundary values, truncations at every field boundary (header error classes are read from the parser's error context; a header the parser accepted but whose content it refused is counted, not compared).",
  "C18": "file-id tables of 1..12 sections in well-formed files; the MPHD payload, the first three MODF entries and three MAIN entries of every written file against Lib.Record's encoding of the object's field values (op rec).",
  "C14": "the offsets recorded in the water chunk of every written file (256 headers and all instance records, read from the bytes) against Model.C14Water's layout; 40/400 water-only tiles with bitmap-only, vertex-only, bare and attribute-only entries.",
